@@ -33,6 +33,15 @@ instance decExistsEnum {α : Type} [Enum α] (p : α → Prop) [DecidablePred p]
   decidable_of_iff (∃ a ∈ (Enum.all : List α), p a)
     ⟨fun ⟨a, _, h⟩ => ⟨a, h⟩, fun ⟨a, h⟩ => ⟨a, Enum.complete a, h⟩⟩
 
+/-- Bool-valued exhaustive check ⇒ universal statement (kernel-friendly: `List.all` over the enumeration) -/
+theorem forall_of_all {α : Type} [Enum α] (p : α → Bool) (h : (Enum.all : List α).all p = true) :
+    ∀ a, p a = true :=
+  fun a => List.all_eq_true.mp h a (Enum.complete a)
+
+theorem forall2_of_all {α β : Type} [Enum α] [Enum β] (p : α → β → Bool)
+    (h : ((Enum.all : List α).all fun a => (Enum.all : List β).all (p a)) = true) : ∀ a b, p a b = true :=
+  fun a b => forall_of_all (p a) (forall_of_all _ h a) b
+
 instance : Enum Bool := ⟨[false, true], by intro x; cases x <;> decide⟩
 
 instance {α : Type} [Enum α] : Enum (Option α) :=
@@ -153,6 +162,12 @@ inductive Seen where
   | strong (d : DT) | weakInt | weakFloat
   deriving DecidableEq, Repr, Inhabited
 
+/-- a weak scalar resolved to its default dtype (`int64` / `float64`) -/
+def Seen.default : Seen → Seen
+  | .weakInt => .strong .i64
+  | .weakFloat => .strong .f64
+  | s => s
+
 /-- the NumPy call "on the underlying arrays": a tensor is replaced by its `.data` -/
 def Operand.seen (o : Operand) : Seen :=
   match o.kind with
@@ -268,18 +283,38 @@ def seenCastable (s : Seen) (t : DT) : Bool :=
   | .weakInt => t != .bool
   | .weakFloat => t.isFloat
 
+/-- the loop of a float-only ufunc (`sqrt`, `exp`, `arctan2`, `logaddexp`, …; loops `e`, `f`, `d` only): NumPy
+takes the first loop to which **every operand by itself** casts safely — so `int8` with `uint8` is float16
+although their promoted type `int16` would need float32.  Weak scalars: a Python float next to non-float
+operands, or a Python int next to bools only (→ default int), select the `d` loop; otherwise they do not
+contribute. -/
+def floatLoop (l : List Seen) : DT :=
+  let ss := strongs l
+  if ss.isEmpty then .f64
+  else if l.any (· == .weakFloat) && !ss.any DT.isFloat then .f64
+  else if l.any (· == .weakInt) && ss.all (· == .bool) then .f64
+  else floatOf (ss.foldl (fun m x => max m x.floatNeed) 0)
+
 /-- result dtype of a ufunc of class `c` as NumPy computes it for the operands as *it* sees them,
 with optional `dtype=` -/
 def ufuncSeen (c : OpClass) (l : List Seen) (kw : Option DT) : Except Err DT :=
   match kw with
   | none =>
-    match resultSeen l with
-    | none => .error .typeError
-    | some d => loopOut c d
+    match c with
+    | .float => if l.isEmpty then .error .typeError else .ok (floatLoop l)
+    | _ =>
+      match resultSeen l with
+      | none => .error .typeError
+      | some d => loopOut c d
   | some t =>
     match loopIn c t with
     | .error e => .error e
-    | .ok tin => if l.all (seenCastable · tin) then .ok t else .error .typeError
+    | .ok tin =>
+      -- a *lone* Python scalar (unary ufunc) is converted with `np.asarray` first: no weak handling
+      let l' := match l with
+        | [x] => [x.default]
+        | _ => l
+      if l'.all (seenCastable · tin) then .ok t else .error .typeError
 
 def npUfunc (c : OpClass) (l : List Operand) (kw : Option DT) : Except Err DT :=
   ufuncSeen c (l.map Operand.seen) kw
